@@ -382,6 +382,20 @@ def run(chk):
             return False
         ok = any(ops[0] == ("const", 0) and ((adt.endswith("Range") and sixteen(ops[1])) or (adt.endswith("RangeInclusive") and ops[1] == ("const", 15)))
                  for adt, ops, line in ranges)
+        if not ok:
+            # the 16 slots walked as the entries of the 16-entry offset table itself: TABLE.iter().enumerate()[.take(palette.len())]
+            for bi_, t_ in tb.calls():
+                if (t_["callee"].get("resolved") or "").endswith("::into_iter") and t_["args"]:
+                    src_ = eb.operand(t_["args"][0])
+                    if src_[0] == "call" and src_[1].endswith("Iterator::take") and len(src_[2]) == 2:
+                        n_ = src_[2][1]
+                        if not ((n_[0] == "len" or (n_[0] == "call" and n_[1].endswith("::len"))) and "palette" in show(n_)):
+                            continue
+                        src_ = src_[2][0]
+                    if src_[0] == "call" and src_[1].endswith("Iterator::enumerate") and len(src_[2]) == 1:
+                        it_ = src_[2][0]
+                        if it_[0] == "call" and it_[1].endswith("<impl [T]>::iter") and sixteen(("len", it_[2][0])):
+                            ok = True
         chk.obligation(ok)
         if not ok:
             chk.finding("formats::artworx::to_ega_data|slots", rule="R-6BIT", where="%s:%s" % (tb.file, tb.line), fn="to_ega_data",
